@@ -1,0 +1,27 @@
+//go:build verif
+
+// Contracts for the deductive verifier in /verif (gvc). Comment-only: compiled only under the build
+// tag `verif`, contains no code.
+package codes
+
+// The reverse table is built by an input-free initialiser; its value is obtained by running it.
+//@ evaluated codeToCheckList
+
+// GetCodesForCheck yields exactly the documented hierarchy of the code: ALL, the category of the code (for the
+// sixteen documented codes) and the code itself (spec functions catOf/inHier: src/util/zz_contracts_verif.go).
+//@ func GetCodesForCheck
+//@   props C16 C08 C10
+//@   ensures forall t string :: contains(result, t) <==> inHier(t, code)
+//@   assigns nothing
+//@   loop 1 invariant len($yielded) == $i && (forall k int :: 0 <= k && k < $i ==> $yielded[k] == checkList[k])
+//@   loop 1 invariant !$stopped
+
+// GetDocumentationURL: the page of the category of the code.
+//@ func GetDocumentationURL
+//@   props C17 C10
+//@   ensures strings.HasPrefix(code, "IMM") ==> result == "https://a14e.github.io/gogreement/" + "02_02_immutable.html"
+//@   ensures !strings.HasPrefix(code, "IMM") && strings.HasPrefix(code, "CTOR") ==> result == "https://a14e.github.io/gogreement/" + "02_03_constructor.html"
+//@   ensures !strings.HasPrefix(code, "IMM") && !strings.HasPrefix(code, "CTOR") && strings.HasPrefix(code, "TONL") ==> result == "https://a14e.github.io/gogreement/" + "02_04_testonly.html"
+//@   ensures !strings.HasPrefix(code, "IMM") && !strings.HasPrefix(code, "CTOR") && !strings.HasPrefix(code, "TONL") && strings.HasPrefix(code, "PKGO") ==> result == "https://a14e.github.io/gogreement/" + "02_05_packageonly.html"
+//@   ensures !strings.HasPrefix(code, "IMM") && !strings.HasPrefix(code, "CTOR") && !strings.HasPrefix(code, "TONL") && !strings.HasPrefix(code, "PKGO") && strings.HasPrefix(code, "IMPL") ==> result == "https://a14e.github.io/gogreement/" + "02_01_implements.html"
+//@   assigns nothing
